@@ -13,9 +13,14 @@
    H_magic / H_prefix / H_whole of each theorem (validated against the real libraries on every
    run of the correspondence check); (2) only the detection half of the property is proved; that
    the records read back equal the records written, and conversions, rest on C05/C06/C07/C09/C10
-   and are evaluated on the implementation only (L3 oracle of harness/src/bin/c20.rs). *)
+   and are evaluated on the implementation only (L3 oracle of harness/src/bin/c20.rs).
+
+   Second part of the file (deepening round 2): the window over a source with a delivery script
+   (NV.Util.Fill: the current builders and the builders repaired by patch 06), the decisions that
+   do not look at content (NV.Util.Dispatch: path extensions, builder defaults, the inner dispatch
+   of readers and writers, indexed readers and index discovery, finish). *)
 From Coq Require Import List NArith.
-From NV Require Import Util.Detect Util.DetectProofs.
+From NV Require Import Io.Source Util.Detect Util.DetectProofs Util.Fill Util.FillProofs Util.Dispatch Util.DispatchProofs.
 Import ListNotations.
 Open Scope N_scope.
 
@@ -205,3 +210,357 @@ Example c20_example_bam :
     = Ok (Bam, CBgzf)
   /\ detect_v (window (bcf_payload [0]) 3) (mk_inflated [] None) = Ok (Bcf, CNone).
 Proof. split; vm_compute; reflexivity. Qed.
+
+(* ======================================================================================== *)
+(* Deepening round 2.                                                                        *)
+
+(* ---- (1) the window over a source with a delivery script -------------------------------- *)
+
+(* the builders repaired by /tmp/C20/fixes/06-detect-short-first-read.diff read the first 8 KiB
+   with take(8192).read_to_end: whatever the script (read sizes, Interrupted results), the window
+   is the first 8 KiB of the stream *)
+Theorem c20_repaired_window : forall src,
+  first_window_fix src = WOk (firstn BUF_CAP (s_data src)).
+Proof. exact first_window_fix_spec. Qed.
+Print Assumptions c20_repaired_window.
+
+(* the current builders: one read; [window s k] above is "the first read delivers k bytes" *)
+Theorem c20_current_window : forall s sc,
+  first_window_cur (mkSource s sc) =
+    match sc with
+    | [] => WOk (firstn BUF_CAP s)
+    | Interrupted :: _ => WInterrupted
+    | Deliver k :: _ => WOk (window s (Nat.max k 1))
+    end.
+Proof. exact first_window_cur_spec. Qed.
+Print Assumptions c20_current_window.
+
+(* THE FULL STATEMENT for the repaired builders: every stream of the generic writers is detected
+   as written for EVERY delivery script -- no condition on read sizes.  Fourth oracle premise
+   H_window: from the first 8 KiB of a BGZF stream the decoder gets the 4 bytes asked for, unless
+   the whole stream fits the window (checked on the real libraries by the hz cases). *)
+Theorem c20_detect_written_repaired :
+  forall (bgzf : list N -> list N) (gunzip : list N -> inflated)
+    (H_magic : forall p, exists r, bgzf p = 31 :: 139 :: r)
+    (H_prefix : forall p m, exists n, avail (gunzip (firstn m (bgzf p))) = firstn n p)
+    (H_whole : forall p, gunzip (bgzf p) = mk_inflated p None)
+    (H_window : forall p, (4 <= length (avail (gunzip (firstn BUF_CAP (bgzf p)))))%nat \/
+                          (length (bgzf p) <= BUF_CAP)%nat),
+  forall f c amb s sc,
+    written_a bgzf f c amb s ->
+    build_src_a true None None gunzip (mkSource s sc) = BOk (f, c).
+Proof. exact detect_written_repaired_a. Qed.
+Print Assumptions c20_detect_written_repaired.
+
+Theorem c20_detect_written_repaired_variant :
+  forall (bgzf : list N -> list N) (gunzip : list N -> inflated)
+    (H_magic : forall p, exists r, bgzf p = 31 :: 139 :: r)
+    (H_prefix : forall p m, exists n, avail (gunzip (firstn m (bgzf p))) = firstn n p)
+    (H_whole : forall p, gunzip (bgzf p) = mk_inflated p None)
+    (H_window : forall p, (4 <= length (avail (gunzip (firstn BUF_CAP (bgzf p)))))%nat \/
+                          (length (bgzf p) <= BUF_CAP)%nat),
+  forall f c s sc,
+    written_v bgzf f c s ->
+    build_src_v true None None gunzip (mkSource s sc) = BOk (f, c).
+Proof. exact detect_written_repaired_v. Qed.
+Print Assumptions c20_detect_written_repaired_variant.
+
+(* the repaired decision is a function of the stream alone (any stream, any overrides) *)
+Theorem c20_repaired_script_independent :
+  forall gunzip oc ofa ofv s sc sc',
+    build_src_a true oc ofa gunzip (mkSource s sc) = build_src_a true oc ofa gunzip (mkSource s sc') /\
+    build_src_v true oc ofv gunzip (mkSource s sc) = build_src_v true oc ofv gunzip (mkSource s sc').
+Proof.
+  intros. split; [apply build_src_fix_script_independent_a|apply build_src_fix_script_independent_v].
+Qed.
+Print Assumptions c20_repaired_script_independent.
+
+(* the current builders over a source: the window conditions are about the first delivery; an
+   Interrupted first read makes the builder fail with ErrorKind::Interrupted *)
+Theorem c20_detect_written_current :
+  forall (bgzf : list N -> list N) (gunzip : list N -> inflated)
+    (H_magic : forall p, exists r, bgzf p = 31 :: 139 :: r)
+    (H_prefix : forall p m, exists n, avail (gunzip (firstn m (bgzf p))) = firstn n p)
+    (H_whole : forall p, gunzip (bgzf p) = mk_inflated p None),
+  forall f c amb s k sc,
+    written_a bgzf f c amb s -> window_ok_a gunzip f c amb s (Nat.max k 1) ->
+    build_src_a false None None gunzip (mkSource s (Deliver k :: sc)) = BOk (f, c).
+Proof. exact detect_written_current_a. Qed.
+Print Assumptions c20_detect_written_current.
+
+Theorem c20_current_interrupted_first_read : forall gunzip s sc,
+  build_src_a false None None gunzip (mkSource s (Interrupted :: sc)) = BInterrupted /\
+  build_src_v false None None gunzip (mkSource s (Interrupted :: sc)) = BInterrupted.
+Proof. exact current_interrupted_first_read. Qed.
+Print Assumptions c20_current_interrupted_first_read.
+
+(* the toy oracle also satisfies the fourth premise *)
+Example c20_oracle_premise_window_satisfiable : forall p,
+  (4 <= length (avail (toy_gunzip (firstn BUF_CAP (toy_bgzf p)))))%nat \/
+  (length (toy_bgzf p) <= BUF_CAP)%nat.
+Proof.
+  intro p. unfold toy_gunzip, toy_bgzf. cbn [avail].
+  assert (C : (6 <= BUF_CAP)%nat) by (apply PeanoNat.Nat.leb_le; reflexivity).
+  rewrite skipn_length, firstn_length. cbn [length].
+  revert C. generalize BUF_CAP. intros c C.
+  destruct (PeanoNat.Nat.le_gt_cases 4 (length p)) as [H|H].
+  - left. apply PeanoNat.Nat.le_add_le_sub_r.
+    apply PeanoNat.Nat.min_glb; [exact C|]. cbn. do 2 apply le_n_S. exact H.
+  - right. apply PeanoNat.Nat.le_trans with 6%nat; [|exact C].
+    do 2 apply le_n_S. apply PeanoNat.Nat.lt_le_incl. exact H.
+Qed.
+
+(* ---- (2) path extensions ------------------------------------------------------------------ *)
+
+(* the conventional names select the conventional writer, for every non-empty stem *)
+Theorem c20_conventional_names : forall a stem, stem <> [] ->
+  build_writer_path_a a None None (stem ++ 46 :: X_SAM) = Ok KSam /\
+  build_writer_path_a a None None (stem ++ 46 :: X_BAM) = Ok KBam /\
+  build_writer_path_a a None None (stem ++ 46 :: X_CRAM) = Ok KCram /\
+  build_writer_path_a a None None ((stem ++ 46 :: X_SAM) ++ 46 :: X_GZ) = Ok KSamGz /\
+  build_writer_path_a a None None ((stem ++ 46 :: X_SAM) ++ 46 :: X_BGZ) = Ok KSamGz.
+Proof. exact conventional_names_a. Qed.
+Print Assumptions c20_conventional_names.
+
+Theorem c20_conventional_names_variant : forall stem, stem <> [] ->
+  build_writer_path_v None None (stem ++ 46 :: X_VCF) = KVcf /\
+  build_writer_path_v None None (stem ++ 46 :: X_BCF) = KBcf /\
+  build_writer_path_v None None ((stem ++ 46 :: X_VCF) ++ 46 :: X_GZ) = KVcfGz /\
+  build_writer_path_v None None ((stem ++ 46 :: X_VCF) ++ 46 :: X_BGZ) = KVcfGz.
+Proof. exact conventional_names_v. Qed.
+Print Assumptions c20_conventional_names_variant.
+
+(* with nothing set every name builds a writer, and which one depends on the extension only *)
+Theorem c20_path_autodetect_total : forall a name,
+  build_writer_path_a a None None name =
+    match extension name with
+    | Some e =>
+        if eqb_bytes e X_SAM then Ok KSam
+        else if eqb_bytes e X_BAM then Ok KBam
+        else if eqb_bytes e X_CRAM then Ok KCram
+        else if is_gz_ext e then Ok KSamGz
+        else Ok KSam
+    | None => Ok KSam
+    end.
+Proof. exact path_autodetect_total_a. Qed.
+Print Assumptions c20_path_autodetect_total.
+
+Theorem c20_path_autodetect_total_variant : forall name,
+  build_writer_path_v None None name =
+    match extension name with
+    | Some e =>
+        if eqb_bytes e X_VCF then KVcf
+        else if eqb_bytes e X_BCF then KBcf
+        else if is_gz_ext e then KVcfGz
+        else KVcf
+    | None => KVcf
+    end.
+Proof. exact path_autodetect_total_v. Qed.
+Print Assumptions c20_path_autodetect_total_variant.
+
+(* ---- (3) the inner dispatch --------------------------------------------------------------- *)
+
+(* every builder ends in the same total table (format, compression) -> Inner variant: the variant
+   names its pair, every variant is reached from its pair, and the only pair without a variant is
+   (CRAM, BGZF) *)
+Theorem c20_inner_dispatch :
+  (forall e f c k, inner_a e f c = Ok k -> akind_fmt k = f /\ akind_comp k = c) /\
+  (forall e k, inner_a e (akind_fmt k) (akind_comp k) = Ok k) /\
+  (forall e f c e', inner_a e f c = Err e' -> f = Cram /\ c = CBgzf /\ e' = e) /\
+  (forall f c, vkind_fmt (inner_v f c) = f /\ vkind_comp (inner_v f c) = c) /\
+  (forall k, inner_v (vkind_fmt k) (vkind_comp k) = k).
+Proof.
+  split; [exact inner_a_sound|]. split; [exact inner_a_complete|]. split; [exact inner_a_err|].
+  split; [exact inner_v_sound|exact inner_v_complete].
+Qed.
+Print Assumptions c20_inner_dispatch.
+
+(* every configuration of the writer builders (sync and async): the reader builder constructs,
+   for the pair the writer was built for, the variant with the same codec and framing *)
+Theorem c20_writer_reader_counterpart :
+  (forall a oc ofm k, build_writer_a a oc ofm = Ok k ->
+     writer_pair_a oc ofm = (akind_fmt k, akind_comp k) /\
+     inner_a InvalidData (akind_fmt k) (akind_comp k) = Ok k) /\
+  (forall oc ofm,
+     writer_pair_v oc ofm = (vkind_fmt (build_writer_v oc ofm), vkind_comp (build_writer_v oc ofm))) /\
+  (forall a oc ofm e, build_writer_a a oc ofm = Err e <->
+     (ofm = Some Cram /\ oc = Some CBgzf /\ e = writer_cram_bgzf_err a)).
+Proof.
+  split; [exact writer_reader_counterpart_a|]. split; [exact writer_reader_counterpart_v|].
+  exact build_writer_a_err.
+Qed.
+Print Assumptions c20_writer_reader_counterpart.
+
+Theorem c20_writer_defaults :
+  (forall a, build_writer_a a None None = Ok KSam) /\
+  (forall a, build_writer_a a None (Some Sam) = Ok KSam) /\
+  (forall a, build_writer_a a None (Some Bam) = Ok KBam) /\
+  (forall a, build_writer_a a None (Some Cram) = Ok KCram) /\
+  build_writer_v None None = KVcf /\ build_writer_v None (Some Vcf) = KVcf /\
+  build_writer_v None (Some Bcf) = KBcf.
+Proof. exact writer_defaults. Qed.
+Print Assumptions c20_writer_defaults.
+
+(* the autodetecting reader builder constructs, for a stream of writer variant k, reader variant k *)
+Theorem c20_reader_variant_of_writer :
+  forall (bgzf : list N -> list N) (gunzip : list N -> inflated)
+    (H_magic : forall p, exists r, bgzf p = 31 :: 139 :: r)
+    (H_prefix : forall p m, exists n, avail (gunzip (firstn m (bgzf p))) = firstn n p)
+    (H_whole : forall p, gunzip (bgzf p) = mk_inflated p None),
+  (forall k amb s n,
+     written_by_a bgzf k amb s -> window_ok_a gunzip (akind_fmt k) (akind_comp k) amb s n ->
+     build_reader_kind_a None None (window s n) (gunzip (window s n)) = Ok k) /\
+  (forall k s n,
+     written_by_v bgzf k s -> window_ok_v gunzip (vkind_fmt k) (vkind_comp k) s n ->
+     build_reader_kind_v None None (window s n) (gunzip (window s n)) = Ok k).
+Proof.
+  intros. split; [apply reader_variant_of_writer_a|apply reader_variant_of_writer_v]; assumption.
+Qed.
+Print Assumptions c20_reader_variant_of_writer.
+
+(* path -> writer variant -> its stream -> repaired reader builder over any delivery script:
+   the pair of that variant *)
+Theorem c20_path_writer_reader_roundtrip :
+  forall (bgzf : list N -> list N) (gunzip : list N -> inflated)
+    (H_magic : forall p, exists r, bgzf p = 31 :: 139 :: r)
+    (H_prefix : forall p m, exists n, avail (gunzip (firstn m (bgzf p))) = firstn n p)
+    (H_whole : forall p, gunzip (bgzf p) = mk_inflated p None)
+    (H_window : forall p, (4 <= length (avail (gunzip (firstn BUF_CAP (bgzf p)))))%nat \/
+                          (length (bgzf p) <= BUF_CAP)%nat),
+  (forall a name k amb s sc,
+     build_writer_path_a a None None name = Ok k -> written_by_a bgzf k amb s ->
+     build_src_a true None None gunzip (mkSource s sc) = BOk (akind_fmt k, akind_comp k) /\
+     inner_a InvalidData (akind_fmt k) (akind_comp k) = Ok k) /\
+  (forall name s sc,
+     written_by_v bgzf (build_writer_path_v None None name) s ->
+     build_src_v true None None gunzip (mkSource s sc)
+       = BOk (vkind_fmt (build_writer_path_v None None name), vkind_comp (build_writer_path_v None None name))).
+Proof.
+  intros. split.
+  - intros. eapply path_writer_reader_roundtrip_a; eassumption.
+  - intros. eapply path_writer_reader_roundtrip_v; eassumption.
+Qed.
+Print Assumptions c20_path_writer_reader_roundtrip.
+
+(* ---- (2b) indexed readers and index discovery --------------------------------------------- *)
+
+(* no index set: the candidates <src>.<ext> are tried in a fixed order; the first one that is not
+   missing decides (a usable one is loaded; an unusable one is the error, later candidates are not
+   tried); all missing: NotFound *)
+Theorem c20_index_discovery :
+  (forall k d, indexable_a k = true -> discover_a k PNone d = first_present d (candidates_a k)) /\
+  (forall k d, indexable_v k = true -> discover_v k PNone d = first_present d (candidates_v k)) /\
+  candidates_a KSamGz = [XCsi] /\ candidates_a KBam = [XBai; XCsi] /\ candidates_a KCram = [XCrai] /\
+  candidates_v KVcfGz = [XTbi; XCsi] /\ candidates_v KBcf = [XCsi].
+Proof.
+  split; [exact discover_a_spec|]. split; [exact discover_v_spec|]. repeat split.
+Qed.
+Print Assumptions c20_index_discovery.
+
+Theorem c20_index_preset : forall d,
+  discover_a KSamGz PBinning d = IOk FromBuilder /\ discover_a KBam PBinning d = IOk FromBuilder /\
+  discover_a KCram PCrai d = IOk FromBuilder /\
+  discover_a KSamGz PCrai d = discover_a KSamGz PNone d /\
+  discover_a KBam PCrai d = discover_a KBam PNone d /\
+  discover_a KCram PBinning d = discover_a KCram PNone d /\
+  discover_v KVcfGz PBinning d = IOk FromBuilder /\ discover_v KBcf PBinning d = IOk FromBuilder.
+Proof. exact discover_preset. Qed.
+Print Assumptions c20_index_preset.
+
+Theorem c20_index_precedence : forall d,
+  (d XBai = FValid -> discover_a KBam PNone d = IOk (FromFile XBai)) /\
+  (d XBai = FMissing -> d XCsi = FValid -> discover_a KBam PNone d = IOk (FromFile XCsi)) /\
+  (forall e, e <> ENotFound -> d XBai = FBad e -> discover_a KBam PNone d = IErr e) /\
+  (d XTbi = FValid -> discover_v KVcfGz PNone d = IOk (FromFile XTbi)) /\
+  (d XTbi = FMissing -> d XCsi = FValid -> discover_v KVcfGz PNone d = IOk (FromFile XCsi)) /\
+  (forall e, e <> ENotFound -> d XTbi = FBad e -> discover_v KVcfGz PNone d = IErr e).
+Proof. exact discover_precedence. Qed.
+Print Assumptions c20_index_precedence.
+
+Theorem c20_index_only_valid_candidates :
+  (forall k p d x, discover_a k p d = IOk (FromFile x) -> In x (candidates_a k) /\ d x = FValid) /\
+  (forall k p d x, discover_v k p d = IOk (FromFile x) -> In x (candidates_v k) /\ d x = FValid) /\
+  (forall k p s, preset_only_a k p = IOk s -> s = FromBuilder) /\
+  (forall k p s, preset_only_v k p = IOk s -> s = FromBuilder) /\
+  (forall k, indexable_a k = true -> preset_only_a k PNone = IErr EInvalidInput) /\
+  (forall k, indexable_v k = true -> preset_only_v k PNone = IErr EInvalidInput).
+Proof.
+  split; [exact discover_a_from_file|]. split; [exact discover_v_from_file|]. exact preset_only_spec.
+Qed.
+Print Assumptions c20_index_only_valid_candidates.
+
+(* the indexed builders accept exactly the pairs whose Inner variant is BGZF SAM/BAM/VCF/BCF or
+   CRAM -- i.e. what the conventional names x.sam.gz, x.bam, x.cram, x.vcf.gz, x.bcf produce *)
+Theorem c20_indexed_pairs :
+  (forall f c, indexed_kind_a f c =
+     match inner_a InvalidData f c with
+     | Ok k => if indexable_a k then IOk k else IErr EInvalidData
+     | Err _ => IErr EInvalidData
+     end) /\
+  (forall f c, indexed_kind_v f c = if indexable_v (inner_v f c) then IOk (inner_v f c) else IErr EInvalidData).
+Proof. split; [exact indexed_kind_a_spec|exact indexed_kind_v_spec]. Qed.
+Print Assumptions c20_indexed_pairs.
+
+(* index file names *)
+Theorem c20_index_paths :
+  (forall src x y, index_path src x = index_path src y -> x = y) /\
+  (forall src x, src <> [] ->
+     extension (index_path src x) = Some (iext_bytes x) /\ file_stem (index_path src x) = src).
+Proof. split; [exact index_path_injective|exact index_path_extension]. Qed.
+Print Assumptions c20_index_paths.
+
+(* ---- (4) finish --------------------------------------------------------------------------- *)
+
+Theorem c20_finish_table :
+  (forall k, finish_v Sync k = (if is_bgzf_kind k then BgzfTryFinish else BufFlush) /\
+             finish_v Async k = AsyncShutdown) /\
+  (forall k, finish_a Sync k = match k with
+                               | KCram => CramFinish
+                               | _ => match akind_comp k with CBgzf => BgzfTryFinish | CNone => BufFlush end
+                               end /\
+             finish_a Async k = AsyncShutdown).
+Proof. split; [exact finish_v_table|exact finish_a_table]. Qed.
+Print Assumptions c20_finish_table.
+
+(* variant::io::Writer::finish over a destination that accepts everything (block-level model):
+   after a run that ends with finish nothing is pending and everything written is at the
+   destination in order; a BGZF stream then ends with the EOF block; finish is idempotent and
+   dropping a finished writer adds nothing *)
+Theorem c20_variant_writer_finish :
+  (forall k ops, let st := vw_run k (ops ++ [OpFinish]) in
+     vw_pending st = [] /\ vw_delivered st = ops_payload ops) /\
+  (forall k ops, let st := vw_run k ops in
+     is_bgzf_kind k = true ->
+     vw_fin (vw_finish st) = true /\ (1 <= vw_eofs (vw_finish st))%nat) /\
+  (forall st, vw_finish (vw_finish st) = vw_finish st) /\
+  (forall st, vw_drop (vw_finish st) = vw_finish st).
+Proof.
+  split; [exact vw_run_finished|]. split; [|split; [exact vw_finish_idempotent|exact vw_drop_after_finish]].
+  intros k ops st Hk.
+  destruct (vw_finish_complete st (vw_run_inv k ops)) as [_ [_ [_ H]]].
+  apply H. unfold st. clear H. revert Hk.
+  assert (G : forall ops s, vw_kind (fold_left vw_step ops s) = vw_kind s).
+  { induction ops0 as [|o ops0 IH]; intro s; [reflexivity|]. cbn [fold_left]. rewrite IH.
+    destruct o; [reflexivity|apply vw_finish_kind]. }
+  unfold vw_run. rewrite G. cbn [vw_new vw_kind]. exact (fun x => x).
+Qed.
+Print Assumptions c20_variant_writer_finish.
+
+(* non-vacuity: concrete runs *)
+Example c20_example_finish :
+  let st := vw_run KVcfGz [OpWrite [35; 35]; OpFinish; OpFinish; OpWrite [49]; OpFinish] in
+  vw_delivered st = [35; 35; 49] /\ vw_blocks st = 2%nat /\ vw_eofs st = 2%nat /\ vw_fin st = true /\
+  vw_eofs (vw_run KBcf [OpFinish; OpFinish]) = 1%nat /\
+  vw_delivered (vw_run KVcf [OpWrite [35]; OpFinish]) = [35] /\
+  vw_delivered (vw_run KVcf [OpWrite [35]]) = [].
+Proof. repeat split. Qed.
+
+Example c20_example_paths :
+  build_writer_path_a Sync None None [120; 46; 115; 97; 109; 46; 103; 122] = Ok KSamGz /\  (* x.sam.gz *)
+  build_writer_path_a Sync None None [120; 46; 103; 122] = Ok KSamGz /\                  (* x.gz *)
+  build_writer_path_a Sync None (Some Cram) [120; 46; 103; 122] = Err InvalidInput /\    (* CRAM to x.gz *)
+  build_writer_path_a Async None (Some Cram) [120; 46; 103; 122] = Err InvalidData /\
+  build_writer_path_a Sync None None [120] = Ok KSam /\
+  build_writer_path_v None None [120; 46; 98; 99; 102; 46; 103; 122] = KVcfGz /\         (* x.bcf.gz: VCF! *)
+  index_path [120; 46; 98; 97; 109] XBai = [120; 46; 98; 97; 109; 46; 98; 97; 105].      (* x.bam.bai *)
+Proof. repeat split. Qed.
